@@ -11,9 +11,22 @@ use super::*;
 
 pub struct SStreamParam { shift: f64, shifted: bool }
 impl SStreamParam { fn apply_additional_half_tone(&mut self, h: f64) { self.shift = h; self.shifted = true; } }
-pub struct SModelStream { id: usize, stream: SStreamParam }
+// the shim stream has every field of the real ModelStream (vector_length, stream, gv, windows) plus an id, so that
+// code reaching for any of them in the `mutated` closure compiles here and the assertions below see what it did
+pub struct SWindows { tag: usize }
+pub struct SModelStream { id: usize, vector_length: usize, stream: SStreamParam, gv: Option<crate::model::GvParameter>, windows: SWindows }
 pub struct SModels;
-impl SModels { fn model_stream(&self, i: usize) -> SModelStream { SModelStream { id: i, stream: SStreamParam { shift: 0.0, shifted: false } } } }
+impl SModels {
+    fn model_stream(&self, i: usize) -> SModelStream {
+        SModelStream {
+            id: i,
+            vector_length: 7 + i,
+            stream: SStreamParam { shift: 0.0, shifted: false },
+            gv: Some((vec![crate::model::MeanVari(1.5, 2.5)], vec![true])),
+            windows: SWindows { tag: 40 + i },
+        }
+    }
+}
 pub struct SEngine { condition: Condition }
 
 impl SEngine {
@@ -44,6 +57,15 @@ fn generator_mlpg_arguments_per_stream() {
         assert!(a[i].0.to_bits() == g[i].to_bits());        // gv_weight[i]
         assert!(a[i].1.to_bits() == t[i].to_bits());        // msd_threshold[i]
         assert!(a[i].2.id == i);                            // model_stream(i)
+        // ... with its vector length, GV statistics and windows as the models handed them out
+        assert!(a[i].2.vector_length == 7 + i && a[i].2.windows.tag == 40 + i);
+        match &a[i].2.gv {
+            Some((mv, sw)) => {
+                assert!(mv.len() == 1 && sw.len() == 1 && sw[0]);
+                assert!(mv[0].0.to_bits() == 1.5f64.to_bits() && mv[0].1.to_bits() == 2.5f64.to_bits());
+            }
+            None => assert!(false),
+        }
         i += 1;
     }
     // the half tone reaches the log-F0 model, with the condition's value, before MLPG; the other streams are untouched
